@@ -110,6 +110,19 @@ func evRet[T any](name string, k, res int) T { var z T; return z }
 
 func ghostTrue() bool { return true }
 
+// hasByte(s, c): some byte of s equals c.
+func hasByte(s string, c byte) bool {
+	for i := 0; i < len(s); i++ {
+		if s[i] == c {
+			return true
+		}
+	}
+	return false
+}
+
+// splitOf(s): the topic levels of s, i.e. the value of strings.Split(s, "/").
+func splitOf(s string) []string { return strings.Split(s, "/") }
+
 // sameArray(a, b): a and b share their backing array (replay: compares the first element address when both are non-empty).
 func sameArray(a, b []byte) bool {
 	return cap(a) > 0 && cap(b) > 0 && &a[:1][0] == &b[:1][0]
